@@ -21,3 +21,5 @@ def run(ctx):
     # targets without results: clauses, default and "nothing matches" on functions, variadics, methods, interface methods
     chv = ctx.child(b, run='TestC04Void$', timeout=300, label='void')
     ctx.absorb(chv, what='TestC04Void')
+    cha = ctx.child(b, run='TestC04InAlike$', timeout=300, label='alike')
+    ctx.absorb(cha, what='TestC04InAlike')
